@@ -1,6 +1,6 @@
 CONSTANTS
   Profile = "caps"
-  MaxAtoms = 4
+  MaxAtoms = 5
   MaxPairs = 1
   HeapLimit = 4
   SubstrOfInlineAtomCopies = FALSE
